@@ -160,7 +160,10 @@ def cases(tier, seed):
     for name in ("gaussian_filter", "shift", "dilation", "erosion", "closing", "opening", "gaussian_smooth", "soft_otsu", "from_gaussian", "lowpass_filter"):
         for lam in (0.5, 2.0, 3.7):
             out.append({"family": "covariance", "name": name, "lam": lam})
-    for src in ("from_array", "from_arrays", "from_file"):
+    for order in (1, 3):
+        for off in ((0.0, 0.0, 0.0), (1.6, -0.7, 0.4), (-2.2, 1.1, -1.3)):
+            out.append({"family": "centering", "order": order, "offset": list(off)})
+    for src in ("from_array", "from_arrays", "from_file", "from_files"):
         for ratio in (1.0, 1.005, 2.0, 0.5, 1.5, 0.75):
             out.append({"family": "rescale", "src": src, "ratio": ratio})
         # the tolerance is relative: the same ratios at pixel sizes far from 1 nm, on either side of the tolerance, and a caller-given tolerance
@@ -242,7 +245,7 @@ def _same(got, ref):
 def run_case(case):
     fam = case["family"]
     return {"programs": _programs, "associativity": _assoc, "curry": _curry, "covariance": _covariance, "rescale": _rescale,
-            "gaussian": _gaussian, "mask": _mask, "loader-dispatch": _dispatch, "atoms": _atoms}[fam](case)
+            "gaussian": _gaussian, "mask": _mask, "loader-dispatch": _dispatch, "atoms": _atoms, "centering": _centering}[fam](case)
 
 
 def _opclass(e):
@@ -446,6 +449,15 @@ def _rescale(case):
                 with mrcfile.new(p, overwrite=True) as m:
                     m.set_data(a.astype(np.float32))
                     m.voxel_size = orig * 10
+                if src == "from_files":
+                    p2 = os.path.join(tmp, "u.mrc")
+                    with mrcfile.new(p2, overwrite=True) as m:
+                        m.set_data((a * 2).astype(np.float32))
+                        m.voxel_size = orig * 10
+                    both = pipe.from_files([p2, p], **tolkw)(scale)
+                    if len(both) != 2 or np.abs(np.asarray(both[0]) - 2 * np.asarray(both[1])).max() > 1e-4 * max(1.0, float(np.abs(a).max())):
+                        raise AssertionError("from_files: images not in the order of the paths")
+                    return both[1]
                 return pipe.from_file(p, **tolkw)(scale)
 
         out = np.asarray(get(img))
@@ -565,6 +577,27 @@ def _atoms(case):
     if b.shape != img.shape or np.abs(b - img).max() > 1e-9:
         viol.append((sig("scale-covariance"), f"atoms, centre and scale multiplied by {lam}: shape {img.shape} -> {b.shape}"))
     return {"nontrivial": True, "outcome": f"atoms|{cname}|{'viol' if viol else 'ok'}", "viol": viol}
+
+
+def _centering(case):
+    """center_by_mass: the converted image has its centre of mass at shape/2 (the library's convention), same total intensity"""
+    from scipy import ndimage as ndi
+
+    from acryo import pipe
+
+    shape = (18, 19, 20)  # the density stays well inside: the converter fills with the nearest edge value
+    off = np.asarray(case["offset"])
+    g = np.stack(np.meshgrid(*[np.arange(n, dtype=np.float64) for n in shape], indexing="ij"), -1)
+    c = np.asarray(shape) / 2 + off
+    img = (np.exp(-((g - c) ** 2).sum(-1) / (2 * 1.2**2)) + 0.5 * np.exp(-((g - c - np.array([1.5, 0.0, -1.0])) ** 2).sum(-1) / (2 * 1.0**2))).astype(np.float32)
+    out = np.asarray(pipe.center_by_mass(order=case["order"])(img, 0.7), dtype=np.float64)
+    viol = []
+    com = np.asarray(ndi.center_of_mass(out))
+    if out.shape != shape or np.abs(com - np.asarray(shape) / 2).max() > 0.1:
+        viol.append((f"{ID}|center_by_mass|centre", f"centre of mass {np.round(com, 3).tolist()} after centring (input {np.round(ndi.center_of_mass(img), 3).tolist()}), expected {(np.asarray(shape) / 2).tolist()}"))
+    if abs(out.sum() - img.sum()) > 0.03 * img.sum():
+        viol.append((f"{ID}|center_by_mass|mass", f"total intensity {img.sum():.4f} -> {out.sum():.4f}"))
+    return {"nontrivial": bool(np.any(off != 0)), "outcome": "centering", "viol": viol}
 
 
 def _mask(case):
